@@ -1,0 +1,7 @@
+//go:build !verif
+
+package uasc
+
+// verifPoint is a scheduling point of the verification harness; without the
+// verif build tag it is an empty function.
+func verifPoint(string) {}
